@@ -576,6 +576,14 @@ def _eq_facts(repo, func):
                 len(n.args) == 2:
             sides = []
             for a in n.args:
+                if isinstance(a, ast.Name):
+                    # a local bound once to the accessor call
+                    ds = [x.value for x in ast.walk(func) if isinstance(
+                        x, ast.Assign) and len(x.targets) == 1 and
+                        isinstance(x.targets[0], ast.Name) and
+                        x.targets[0].id == a.id]
+                    if len(ds) == 1:
+                        a = ds[0]
                 if isinstance(a, ast.Call) and isinstance(
                         a.func, ast.Attribute) and a.func.attr in (
                         'ids', 'metadata') and isinstance(a.func.value,
@@ -631,6 +639,16 @@ def rule_sb_eq(repo, col):
                           '%s compares %s only on %s: tables differing in '
                           'the other axis\' %s compare equal'
                           % (q, k, sorted(fc[k]) or 'no axis', k))
+        # ids and metadata are compared by content, not by how the arrays
+        # happen to be typed (text ids may sit in 'U' or object arrays)
+        rep = [x for x in ast.walk(f) if isinstance(x, ast.Attribute) and
+               x.attr in ('dtype', 'itemsize', 'nbytes', 'strides')]
+        col.check(not rep, rule, TABLE, q, 'representation-independent',
+                  rep[0] if rep else f, 'no test on the arrays\' dtype',
+                  '`%s` makes the verdict depend on the dtype of an id / '
+                  'metadata array: equal ids held as object and as text '
+                  'arrays compare unequal' % (unparse(rep[0], 50)
+                                              if rep else ''))
         for n in fc.get('bad_operands', []):
             col.bad(rule, TABLE, q, 'operands', n, 'a comparison does not '
                     'compare self with other')
